@@ -170,8 +170,18 @@ def run(ctx):
         "instantiates Common/Sha256.v (checked against crypto/sha256 by the harness)",
         "guard of every theorem: number of received secrets <= 2^48-1 (at index 0 the Go array "
         "[48]element would be indexed at 48 and panic; not modelled)"])
+    henv = {}
+    if ctx.replay:
+        # re-run exactly the recorded inputs on the current tree
+        import json as _json
+        rep = _json.load(open(ctx.replay))
+        if not isinstance(rep.get("detail", {}).get("case"), dict):
+            ctx.note("replay file has no recorded case (kind=%s): running the normal check"
+                     % rep.get("kind"))
+        else:
+            henv["VERIF_REPLAY"] = os.path.abspath(ctx.replay)
     rc, trace, out = run_harness(ctx.uid(), "shachain", ["shachain/verif_store_test.go"],
-                                 "^TestVerifShachain$", timeout=1500)
+                                 "^TestVerifShachain$", timeout=1500, env=henv)
     rows = read_jsonl(trace)
     if rc != 0 or not rows:
         ctx.violation("harness_failed", "TestVerifShachain", {"log": out[-4000:]},
@@ -187,12 +197,9 @@ def run(ctx):
             key = f[0].split(" ")[0]
             pred_kinds[key] = pred_kinds.get(key, 0) + 1
             if nfail <= 3:
-                small = dict(c)
-                if len(small["ops"]) > 400:
-                    small["ops"] = small["ops"][:400] + [["...truncated", len(c["ops"])]]
                 ctx.violation("impl_violates_predicate", "C06_store_exact/C06_accept_criterion/"
                               "C06_bounded/C06_codec_roundtrip",
-                              {"case": small, "fails": f[:10]},
+                              {"case": c, "fails": f[:10]},
                               signature="shachain case kind=%s %s" % (c["kind"], f[0]))
     # correspondence
     small_rows = [c for c in rows if c["kind"] != "exh"]
@@ -212,8 +219,7 @@ def run(ctx):
     for c, opsidx in bad_all[:3]:
         first = opsidx[0]
         ctx.violation("correspondence_mismatch", "Shachain.Exec.check_case",
-                      {"case_id": c["case"], "kind": c["kind"], "k": c["k"],
-                       "ops_up_to_first_disagreement": c["ops"][max(0, first - 60):first + 1],
+                      {"case": c, "first_disagreement_at_op": first,
                        "disagreeing_ops": [c["ops"][i] for i in opsidx[:5]],
                        "op_indices": opsidx[:50]},
                       signature="shachain mismatch", failing_input=True)
